@@ -16,12 +16,12 @@ CHECKS = {
    note="Trusted: TLC, Go compress/flate. The memory bound is a measured quantity with fixed slack (512 KiB), not derived by TLC.",
    design="6/C08"),
  "C16": dict(
-   technique="TLA+ model of the concurrent endpoint (spec/WSConn.tla) checked by TLC for NothingAfterClose over all interleavings; hook traces of seeded concurrent executions validated by TLC against TraceConn.tla and the frames a raw peer records until EOF against TraceWire.tla (WSFrame!WireStep)",
+   technique="TLA+ model of the concurrent endpoint (spec/WSConn.tla) checked by TLC for NothingAfterClose over all interleavings; hook traces of seeded concurrent executions validated by TLC against TraceConn.tla and the frames a raw peer records until EOF against TraceWire.tla (WSFrame!WireStep); executions of the model's own scenario replayed through WSConn's actions with NothingAfterClose evaluated in every state (TraceRefine.tla)",
    text="TLC explores every interleaving of a streaming writer, pinger, reader, closer, timeoutLoop and a peer that may echo early/late/never (quick 0.4M, thorough 24M distinct states) and must also catch the two pre-fix deviations; 300 (quick) / 4000 (thorough) seeded concurrent executions of the real Conn are trace-validated: the library's own emission order (WfHeader hook under writeFrameMu) and the wire as seen by an independent peer must both satisfy 'no data frame and no second Close after a Close frame'.",
    note="Schedules on the real code are sampled, not enumerated; hooks log under the lock that protects the emission (rule R1). Trusted: TLC, raw peer parser (its header bytes are re-decoded by TLC).",
    design="6/C16"),
  "C05": dict(
-   technique="TLA+ model WSConn (FrameAtomic, NoMsgInterleave, MutexOK) checked by TLC; TLC trace validation of hook events (lock discipline R2/R3, frame atomicity, message ownership) and of the peer-observed wire; Go race detector as auxiliary oracle for the data-race clause",
+   technique="TLA+ model WSConn (FrameAtomic, NoMsgInterleave, MutexOK) checked by TLC; TLC trace validation of hook events (lock discipline R2/R3, frame atomicity, message ownership) and of the peer-observed wire; refinement check of real executions of the model's own scenario through WSConn's own actions (TraceRefine.tla); Go race detector as auxiliary oracle for the data-race clause",
    text="Model: all interleavings within the constants. Code: seeded concurrent executions (1-3 writers with Write/Writer, pingers, reader, closer) over a perturbing transport; every lock/unlock/emit event is validated by TraceConn.tla, every frame by TraceWire.tla, every message the peer reassembles is matched to exactly one written message in per-writer order; the same executions run again under -race with the sink nil.",
    note="The memory-model part ('no data race') is decided by the Go race detector, not by TLC. Schedules are sampled.",
    design="6/C05"),
